@@ -24,7 +24,10 @@ EXPLANATION = (
     "changes reader state only through carquet_column_read_batch; (4) every scalar null-bitmap builder "
     "sets a bit iff def < max_def (one polarity), and every null bitmap of the batch reader starts from "
     "calloc; (5) every subscript of a per-leaf array, a per-element array, a per-projection array or the "
-    "row-group list uses an index whose provenance is in the array's own index space. Decides these "
+    "row-group list uses an index whose provenance is in the array's own index space; (6) "
+    "carquet_batch_reader_create, executed abstractly for a 3-column file, keeps exactly the caller's "
+    "projection list in the caller's order for every width 1..4 (permutations and duplicates included), by "
+    "index and by name, and 0..N-1 without a list. Decides these "
     "clauses, not that the dense-values offset is right for nullable pages.")
 
 PR = "src/reader/page_reader.c"
@@ -191,6 +194,8 @@ def run(ctx):
 
     rn = P.fn("carquet_read_next_page", PR)
     _page_cursor(ctx, rn)
+    ctx.clause("C02.6 the batch reader's projection is the caller's list, in the caller's order, for every width (by index or by name)")
+    _projection(ctx)
     # set-form update in the batch reader's zero-copy branch
     bn = P.fn("carquet_batch_reader_next", BR)
     bnv = P.inlined(bn, 2)       # the zero-copy arm may live in a static helper: its guard is then the caller's
@@ -264,6 +269,78 @@ def _names_assigned_from(fn, callee):
         elif is_assign(n) and any(c.k == "CallExpr" and c.callee == callee for c in n.c[1].walk()):
             out.append(src(n.c[0]))
     return out
+
+
+def _projection(ctx):
+    """carquet_batch_reader_create executed abstractly for a 3-column file: projections of 1..4 entries by
+    index ({2,0,1,1}) and by name (resolving to 2,0,1,1), and no projection. The allocator, memcpy, the column
+    count and the schema lookup are hooked; the projected column list is read off the new object."""
+    from ..rules import sem
+    from ..rules.skeleton import Ptr, U
+    P = ctx.P
+    fn = P.fn("carquet_batch_reader_create", BR)
+    key = "projection|%s:carquet_batch_reader_create" % BR
+    what = ("the projection kept by the batch reader is the caller's list in the caller's order - duplicates and permutations "
+            "included - for every width 1..4 on a 3-column file, by index and by name; without a list it is 0..N-1 (abstract execution)")
+    co = sem.field_offsets(P, "carquet_batch_reader_config")
+    bo = sem.field_offsets(P, "carquet_batch_reader")
+    size = P.record("carquet_batch_reader")["size"]
+    T = 3
+    IDX = [2, 0, 1, 1]
+    NAMES = {"name0": 2, "name1": 0, "name2": 1, "name3": 1}
+    bad = None
+    try:
+        for mode in ("index", "name", "all"):
+            for k in ((1, 2, 3, 4) if mode != "all" else (0,)):
+                heap0 = {("cfg", o): 0 for o in co.values()}
+                if mode == "index":
+                    heap0[("cfg", co["column_indices"])] = Ptr("idx", 0, 4)
+                    heap0[("cfg", co["num_columns"])] = k
+                elif mode == "name":
+                    heap0[("cfg", co["column_names"])] = Ptr("names", 0, 8)
+                    heap0[("cfg", co["num_column_names"])] = k
+                for i in range(4):
+                    heap0[("names", 8 * i)] = Ptr("name%d" % i, 0, 1)
+                    heap0[("idx", 4 * i)] = IDX[i]
+                nm = [0]
+
+                def malloc(ev, a, it):
+                    nm[0] += 1
+                    return Ptr("m%d" % nm[0], 0, 1)
+
+                def calloc(ev, a, it):
+                    nm[0] += 1
+                    b = "m%d" % nm[0]
+                    if isinstance(a[0], int) and isinstance(a[1], int) and a[0] * a[1] <= 4096:
+                        for o in range(0, a[0] * a[1], 4):
+                            it.heap.setdefault((b, o), 0)
+                    return Ptr(b, 0, 1)
+
+                def memcpy(ev, a, it):
+                    if isinstance(a[0], Ptr) and isinstance(a[1], Ptr) and isinstance(a[2], int):
+                        for o in range(0, a[2], 4):
+                            it.heap[(a[0].base, a[0].off + o)] = it.heap.get((a[1].base, a[1].off + o), U)
+                    return a[0]
+                hooks = {"malloc": malloc, "calloc": calloc, "memcpy": memcpy, "free": lambda ev, a, it: None,
+                         "carquet_reader_num_columns": lambda ev, a, it: T, "carquet_error_set": lambda ev, a, it: None,
+                         "carquet_reader_schema": lambda ev, a, it: Ptr("schema", 0, 1),
+                         "carquet_schema_find_column": lambda ev, a, it: NAMES.get(a[1].base, -1) if isinstance(a[1], Ptr) else U}
+                ret, ev, heap = sem.run(P, fn, [Ptr("rd", 0, 1), Ptr("cfg", 0, 1), 0], heap0=heap0, hooks=hooks, single=True,
+                                        max_forks=32, budget=200000, on_start=lambda: nm.__setitem__(0, 0))
+                want = list(range(T)) if mode == "all" else IDX[:k]
+                sc = "no projection" if mode == "all" else "%d columns by %s (%s)" % (k, mode, IDX[:k])
+                if not isinstance(ret, Ptr):
+                    bad = bad or "%s: returns %s" % (sc, ret)
+                    continue
+                npj = heap.get((ret.base, bo["num_projected"]))
+                pc = heap.get((ret.base, bo["projected_columns"]))
+                got = [heap.get((pc.base, pc.off + 4 * i)) for i in range(len(want))] if isinstance(pc, Ptr) and isinstance(pc.off, int) else None
+                if npj != len(want) or got != want:
+                    bad = bad or "%s: the reader keeps %s column(s) %s, expected %s" % (sc, npj, got, want)
+    except (sem.Inconclusive, KeyError) as ex:
+        ctx.inconclusive("R9.paired", key, P.where(fn.body), what, "%s: %s" % (type(ex).__name__, ex))
+        return
+    ctx.ob("R9.paired", key, P.where(fn.body), what, bad is None, bad or "")
 
 
 def _page_cursor(ctx, rn):
